@@ -53,6 +53,7 @@ type cmdCase struct {
 	H2C       bool   `json:"h2c"`
 	HostHdr   bool   `json:"hosthdr"`
 	Stall     bool   `json:"stall"`
+	Head      bool   `json:"head"`
 }
 
 func (c cmdCase) valid() bool {
@@ -78,6 +79,9 @@ func (c cmdCase) valid() bool {
 		return false
 	}
 	if c.Rate == 2 && c.Lazy {
+		return false
+	}
+	if c.Head && c.Body {
 		return false
 	}
 	return true
@@ -129,6 +133,9 @@ func (c cmdCase) op(dir string) map[string]any {
 		method, own := "GET", !c.slowList() && !c.Stall && i == 2
 		if own {
 			method = "POST"
+		}
+		if c.Head && !c.slowList() && !c.Stall && i == 3 {
+			method = "HEAD"
 		}
 		if c.Format == "http" {
 			fmt.Fprintf(&doc, "%s %s%s\n", method, base, c.pathOf(i))
@@ -260,6 +267,7 @@ func TestDrv_E2E(t *testing.T) {
 		}
 		c.H2C = c.Server == "h2c" && r.Intn(2) == 0
 		c.HostHdr = r.Intn(5) == 0
+		c.Head = r.Intn(4) == 0
 		if !c.valid() {
 			continue
 		}
